@@ -8,7 +8,7 @@ from mc.core import Acc
 ID = "C19"
 RULE = ("E-FULL: every Unicode scalar value c (1,112,064) in the 4 contexts c, 'a'+c, c+'b', 'a'+c+'b' through the real "
         "labella.tex.uni2tex; every ordered pair of the 112 combining diacritical marks U+0300-U+036F on 5 bases with and without a following letter; E-INPUT: every string of length <= 4 (thorough <= 5) over a 12 (16) letter alphabet mixing ASCII, "
-        "TeX specials (incl. %, #, $, _), precomposed letters, listed/unlisted combining marks, compatibility characters, CJK, emoji; every string of length <= 2 (thorough <= 3) also as a label text through TimelineTex.export(), read from the \\def\\text lines. Oracle R-UNI: no "
+        "TeX specials (incl. %, #, $, _), precomposed letters, listed/unlisted combining marks, compatibility characters, CJK, emoji; every string of length <= 2 (thorough <= 3) also as a label text through TimelineTex.export() (text found by the default textFn, by textFn=None and by a caller-supplied accessor), read from the \\def\\text lines. Oracle R-UNI: no "
         "exception, ASCII unchanged, accent commands read back as combining marks reproduce the input under NFD. "
         "Non-trivial: the output contains an accent command.")
 ASSUMPTIONS = ["inputs that themselves spell an accent command (backslash, accent letter, brace) are excluded from read-back (ambiguous by design)",
@@ -58,12 +58,22 @@ def plan(tier, seed):
 DEF = re.compile(r"^\\def\\text([A-Z]+)\{(.*)\}$", re.S)
 
 
-def via_export(text):
-    """The text as it arrives in the TikZ document."""
+ACCESSORS = ("default", "none", "custom")
+
+
+def via_export(text, accessor="default"):
+    """The text as it arrives in the TikZ document.  accessor: how the timeline finds the text in the records - the
+    default textFn, the option textFn=None (the built-in path that reads record["text"]), or a caller-supplied function."""
     from labella.scale import LinearScale
     from labella.timeline import TimelineTex
-    tl = TimelineTex([{"time": 1, "width": 30, "text": text}, {"time": 5, "width": 30, "text": "x"}],
-                     {"scale": LinearScale(), "domain": [0, 10]})
+    opts = {"scale": LinearScale(), "domain": [0, 10]}
+    data = [{"time": 1, "width": 30, "text": text}, {"time": 5, "width": 30, "text": "x"}]
+    if accessor == "none":
+        opts["textFn"] = None
+    elif accessor == "custom":
+        data = [{"time": 1, "width": 30, "caption": text}, {"time": 5, "width": 30, "caption": "x"}]
+        opts["textFn"] = lambda d: d["caption"]
+    tl = TimelineTex(data, opts)
     doc = tl.export()
     # the text definitions are consecutive "\def\text<ID>{...}" entries, each starting a line; a label may contain
     # line feeds, so an entry ends where the next one (or the blank line before \begin{document}) starts
@@ -196,14 +206,21 @@ def run_shard(shard):
                 if uni.ambiguous(text):
                     acc.counters["ambiguous_inputs_skipped"] += 1
             else:
-                acc.counters["exports"] += 1
-                try:
-                    got = via_export(text)
-                except Exception as e:
-                    bad = ("EXC:export:" + type(e).__name__, "TimelineTex.export with label text %r raised %r" % (text, e))
-                else:
-                    bad = uni.check_text(lambda t, g=got: g, text) if got is not None else \
-                        ("C19:text-missing", "no \\def\\textA line for label text %r" % (text,))
+                bad = None
+                for accessor in ACCESSORS:
+                    acc.counters["exports"] += 1
+                    try:
+                        got = via_export(text, accessor)
+                    except Exception as e:
+                        bad = ("EXC:export:" + type(e).__name__, "TimelineTex.export with label text %r raised %r" % (text, e))
+                    else:
+                        bad = uni.check_text(lambda t, g=got: g, text) if got is not None else \
+                            ("C19:text-missing", "no \\def\\textA line for label text %r" % (text,))
+                    if bad:
+                        acc.violation({"text": text, "via": shard["kind"], "accessor": accessor}, bad[0], bad[1] + " [textFn: %s]" % accessor,
+                                      order=(1, n, tup))
+                        break
+                bad = None
             if bad:
                 acc.violation({"text": text, "via": shard["kind"]}, bad[0], bad[1], order=(1, n, tup))
             elif "\\" in text or any(ord(ch) > 127 for ch in text):
@@ -218,7 +235,7 @@ def replay(case):
         return check_fontdoc(case["text"], case["preamble"])
     if case.get("via") == "tex":
         try:
-            got = via_export(case["text"])
+            got = via_export(case["text"], case.get("accessor", "default"))
         except Exception as e:
             return "EXC:export:" + type(e).__name__, repr(e)
         if got is None:
